@@ -293,6 +293,15 @@ func (pc *PluggableConsensus) CheckMinerMatch(ctx xcontext.XContext, block cctx.
 		pc.ctx.XLog.Error("Pluggable Consensus::CheckMinerMatch::tail consensus item is empty", "err", EmptyConsensusListErr)
 		return false, EmptyConsensusListErr
 	}
+	// the height is not covered by the block id, and the ledger only overwrites
+	// it when it confirms the block; the plugins pick validators and targets by
+	// it, so a claimed height that does not follow the parent's is refused here
+	if preBlock, err := pc.ctx.Ledger.QueryBlock(block.GetPreHash()); err == nil && preBlock != nil &&
+		block.GetHeight() != preBlock.GetHeight()+1 {
+		pc.ctx.XLog.Warn("Pluggable Consensus::CheckMinerMatch::block height does not follow its parent",
+			"height", block.GetHeight(), "parentHeight", preBlock.GetHeight())
+		return false, errors.New("block height does not follow its parent")
+	}
 	return con.CheckMinerMatch(ctx, block)
 }
 
